@@ -114,7 +114,7 @@ def _build(rng):
             recs.append([off, _payload(rng, n)])
         prev_end = off + n
     return {"t": "good", "records": recs, "delta": delta, "form": rng.choice(["lit", "zero-minus", "neg"]),
-            "place": rng.choice(["top", "block", "between", "scope", "loop", "macro", "reassigned"])}
+            "place": rng.choice(["top", "block", "between", "scope", "loop", "macro", "reassigned", "again"])}
 
 
 def strategy(tier):
@@ -231,6 +231,10 @@ def _program(place, delta_text):
         return HOST_PRE + f"k_base := {delta_text}\n.include_ips 'p.ips', k_base\nk_base := k_base + 0x{LOOP_STEP:x}\n.include_ips 'p.ips', k_base\nk_base := 0\n" + HOST_POST
     if place == "macro":
         return HOST_PRE + f".macro m_ips(p_d) {{\n.include_ips 'p.ips', p_d\n}}\nm_ips({delta_text})\nm_ips({delta_text} + 0x{LOOP_STEP:x})\n" + HOST_POST
+    if place == "again":
+        # the same file with the same delta a second time, after another patch (q.ips: the same records with every byte
+        # inverted) has gone over the same offsets: each directive reproduces the patch's effect where it stands
+        return HOST_PRE + d + f".include_ips 'q.ips', {delta_text}\n" + d + HOST_POST
     if place == "top":
         return d + HOST_PRE + HOST_POST
     if place == "block":
@@ -346,6 +350,11 @@ def run_case(case) -> Outcome:
     blob = ips.build(recs)
     reps = {"loop": [0, LOOP_STEP, 2 * LOOP_STEP], "macro": [0, LOOP_STEP], "reassigned": [0, LOOP_STEP]}.get(case["place"], [0])
     expected = [(off + delta + extra, (bytes([p[0]]) * p[1]) if isinstance(p, tuple) else p) for extra in reps for off, p in recs]
+    pfiles = {"p.ips": {"hex": blob.hex()}}
+    if case["place"] == "again":
+        inv = [(off, (p[0] ^ 0xFF, p[1]) if isinstance(p, tuple) else bytes(b ^ 0xFF for b in p)) for off, p in recs]
+        pfiles["q.ips"] = {"hex": ips.build(inv).hex()}
+        expected = expected + [(off + delta, (bytes([p[0]]) * p[1]) if isinstance(p, tuple) else p) for off, p in inv] + expected
     if any(o < 0 or _near_host(o, len(d)) or o + len(d) > 1 << 24 for o, d in expected):
         return Outcome(skip="offset+delta outside the generated domain")
     labels = [f"place:{case['place']}", f"delta-form:{case['form']}"]
@@ -364,7 +373,7 @@ def run_case(case) -> Outcome:
     src = _program(case["place"], dt)
     out.sample = {"records": [[hex(o), (s if "hex" not in s else {"hex": s["hex"][:24]})] for o, s in records][:6], "directive": f".include_ips 'p.ips', {dt}", "place": case["place"]}
     host = driver.assemble_mem(_host_only(case["place"]))
-    res = driver.assemble_mem(src, files={"p.ips": {"hex": blob.hex()}})
+    res = driver.assemble_mem(src, files=pfiles)
     if not host.accepted:
         return Outcome(skip="host program rejected")
     kinds = ("rle" if n_rle else "plain")
@@ -382,7 +391,7 @@ def run_case(case) -> Outcome:
     if (len(recs) + abs(delta)) % 4 == 0 and all(o >= 0 for o, _ in expected) and sum(len(d) for _, d in expected) < 200000:
         # the same program read from src/main.s while other files called p.ips lie next to it: the patch named by the directive is the
         # one in the working directory (paths are relative to it), and the written patch has its records
-        f = driver.assemble_file_api(src, fmt="ips", files={"p.ips": {"hex": blob.hex()}}, env={"subdir": True})
+        f = driver.assemble_file_api(src, fmt="ips", files=pfiles, env={"subdir": True})
         out.evals += 1
         out.labels.append("source-in-subdirectory")
         if f["status"] != "ok" or f["rc"] not in (0, None):
